@@ -5,17 +5,28 @@ comms.Listener / callback / send_data / get_socket / ReliableSender run in-proce
 transport below them (zmq.Context / zmq.Poller: PUSH sockets that assemble multipart messages per socket, frame by
 frame; a bag of messages in flight that the trace loses / duplicates / delays), a manual thread pool (jobs finish when
 the trace says, also inside wait(); a job can be advanced frame send by frame send, so that the sends of the two pool
-threads interleave as the trace says), a per-host fake shm client with the conflict rule of cascade.shm, and a fake
-clock.  One trace step = one iteration of the real recv_loop, one pool job (or one step of it), one network event, one
-controller command, or a clock tick.  The harness touches the data server only through what it is given from outside
-(listener socket, sockets it opens, shm client, clock, pool, wait) plus `recv_loop` and `terminating`.
+threads interleave as the trace says), and a fake clock.  The REAL cascade.shm.client (allocate / get / purge /
+close_callback / _send_command, AllocatedBuffer, api.ser / deser) runs too, over harness/fakes/ds_shm.py: a fake datagram
+socket and, per host, a fake single-threaded shm server with the rules of cascade.shm.dataset.Manager (conflict on an
+existing key, wait on an unclosed one, reader ids, delayed purge) that the trace can make SLOW (its answer to the n-th
+request comes ms later; a waiting client lets the clock run; nothing is lost); a stepped job can also be paused after
+every shm request it sends, so that the requests of the two pool threads interleave at the server as the trace says.
+One trace step = one iteration of the real recv_loop, one pool job (or one step of it), one network event, one
+controller command, a busy spell of an shm server, or a clock tick.  The harness touches the data server only through
+what it is given from outside (listener socket, sockets it opens, datagram sockets and segments of the shm client,
+clock, pool, wait) plus `recv_loop` and `terminating`.
 
 * oracle: a direct reading of the property on what the hosts' shm stores contain, what is called back to the message
   socket, what the controller's listener returns, and when shm purge is called (independent of the model);
 * correspondence: the same trace is evaluated by the Coq model (Net/DataServer.v) and the observable end state compared
   inside Coq (Net/DataServerCheck.check_case); pool jobs are atomic in that model, which Net/Multipart.v justifies for
   frame sends that do not interleave on one socket: the log of all frame sends of the trace is checked inside Coq too
-  (Net/MultipartCheck.check_case_w)."""
+  (Net/Multipart.wire_ok); an shm call is one atomic look at the store in that model, which Net/ShmRpc.v justifies for a
+  client that sends a request once and waits for its answer: the log of all datagram events between the real client and
+  the shm servers is checked inside Coq too (Net/ShmRpcCheck.check_case_r: the model server gives the answers seen, every
+  socket keeps to one request / one awaited answer).  Traces in which the order of the jobs' effects is not the order in
+  which they end (two threads at one dataset's entry at overlapping times, a message delivered before its sender job
+  ended, time passing inside a loop iteration) are judged by the oracle and the two logs only."""
 import hashlib
 import itertools
 import json
@@ -30,17 +41,29 @@ TRUSTED = [
     "harness/fakes/ds_fakes.py: fake zmq.Context/Poller (PUSH: per-socket assembly of multipart messages, send_multipart = one send per frame "
     "as in pyzmq; the wire is a bag of messages; PULL: a queue), manual thread pool + concurrent.futures.wait "
     "(the trace picks which job finishes while the loop blocks; stepped jobs run on their own thread under a cooperative scheduler and pause "
-    "after each non-final frame they send), per-host fake shm client (allocate on an existing key -> ConflictError, "
-    "get of a missing key -> ValueError, purge of a missing key -> nothing; as cascade.shm.dataset.Manager), fake clock (time.time_ns)",
+    "after each non-final frame they send, on request also after every shm request they send and in every time.sleep), fake clock "
+    "(time.time_ns; time.sleep and waiting for a datagram let it run)",
+    "harness/fakes/ds_shm.py: fake socket.socket (datagrams to the shm server of the host whose code runs; the answer goes to the receive buffer "
+    "of the socket the request came from, or nowhere when that socket is closed; recv honours settimeout in fake time; a recv that nothing "
+    "can satisfy = a thread blocked for ever), fake per-host shm server (one thread, arrival order, one answer per request; "
+    "add on an existing key -> conflict whatever its state, get of an unclosed entry -> wait, get / close of a missing key -> error answer, "
+    "writer's close created -> in_memory, reader ids, purge of a missing key -> nothing, purge delayed while readers are open; "
+    "as cascade.shm.server.LocalServer.start + cascade.shm.dataset.Manager without capacity pressure), "
+    "fake multiprocessing.shared_memory.SharedMemory (in-memory registry with POSIX create / open / unlink rules), "
+    "multiprocessing.resource_tracker.register / unregister = no-ops",
     "name -> number maps for hosts/addresses, dataset ids and deser_fun strings (injective per case); pickle framing of messages is in the loop "
     "on the implementation side and not modelled (frames are compared after des_message)",
 ]
 ASSUMPTIONS = [
     "jobs given to ds_proc_tp (send_payload / store_payload) are atomic in the Coq model w.r.t. the loop: the loop looks at them only through "
     "Future.done() in maybe_clean / wait, and their effects (shm allocate+write+close, one send) do not interleave with another job on the same dataset "
-    "(cascade.shm serialises allocate/get per key: a second allocate conflicts, a get of an unclosed buffer waits); the one multi-step effect that "
-    "two jobs could interleave, the frame-by-frame send of a multipart message, is atomic iff no other send uses the same socket meanwhile "
-    "(Net/MultipartProofs.v); that condition is exercised on the implementation (stepped jobs) and checked on every trace",
+    "(cascade.shm serialises allocate/get per key: a second allocate conflicts, a get of an unclosed buffer waits); the multi-step effects that "
+    "two jobs could interleave: the frame-by-frame send of a multipart message, atomic iff no other send uses the same socket meanwhile "
+    "(Net/MultipartProofs.v), and the request/answer datagrams of an shm call, applied exactly once with the caller handed that application's "
+    "answer iff the client sends the request once and waits for the answer (Net/ShmRpcProofs.v); both conditions are exercised on the "
+    "implementation (stepped jobs, slow shm servers) and checked on every trace",
+    "datagrams between a client and the shm server of its host (loopback UDP) are neither lost, duplicated nor reordered; the server is one "
+    "thread, serves requests in arrival order, answers every request once, after an arbitrary finite delay; an answer to a closed socket is gone",
     "zmq assembles multipart messages per socket and delivers them whole; a PUSH socket used by two threads at once interleaves their frames",
     "ds2shmid is injective on the datasets of a run (md5 of a separator-safe encoding)",
     "a dataset id denotes one value: every worker publication of dataset d carries content(d); a worker publishes d at most once per host "
@@ -51,7 +74,7 @@ ASSUMPTIONS = [
 ]
 
 HEADER = """From Coq Require Import List NArith ZArith String.
-From EKW Require Import Net.DataServer Net.DataServerCheck Net.Multipart Net.MultipartCheck.
+From EKW Require Import Net.DataServer Net.DataServerCheck Net.Multipart Net.MultipartCheck Net.ShmRpc Net.ShmRpcCheck.
 Import ListNotations.
 Open Scope string_scope.
 """
@@ -93,6 +116,10 @@ class Runner:
         self.outside = None
         self.skip_corr = False
         self.cm = None
+        self.seen_hangs = 0
+        self.seen_late = {}
+        self.seen_lost_answers = 0
+        self.seen_timeouts = 0
 
     def __enter__(self):
         self.cm = self.cluster.patched()
@@ -124,6 +151,8 @@ class Runner:
 
     # --- Coq terms
     def c_bytes(self, b):
+        if b is None:
+            raise OutsideModel("a ready shm entry without a segment")
         return clist([cN(x) for x in bytes(b)])
 
     def c_cmd(self, c):
@@ -203,11 +232,22 @@ class Runner:
         cl = self.cluster
         k = op["op"]
         nbefore = len(cl.net)
-        if k == "publish":
+        t0, nterms = cl.clock.ns, len(self.terms)
+        if k == "shmbusy":
+            # the shm server of host h is slow: the (skip+1)-th request it gets from now on is answered ms later
+            cl.shm_server[op["h"]].busy(op.get("skip", 0), op["ms"])
+        elif k == "publish":
             b, d = self.content[op["ds"]]
-            cl.publish(op["h"], self.dsl[op["ds"]], b, d)
-            self.local_pub.add((op["h"], op["ds"]))
-            self.terms.append(f"OA (AHost {cN(op['h'])} (HPublish {cN(op['ds'])} {self.c_bytes(b)} {cN(self.desnum(d))}))")
+            try:
+                cl.publish(op["h"], self.dsl[op["ds"]], b, d)
+            except Exception as e:
+                # the worker could not publish (its shm client raised): the worker's business, not a transfer -- the host does not hold
+                # the dataset, the run goes on (transfers of it from there are then not expected to complete)
+                self.stats.add("worker-publication-failed:" + type(e).__name__)
+                self.skip_corr = True
+            else:
+                self.local_pub.add((op["h"], op["ds"]))
+                self.terms.append(f"OA (AHost {cN(op['h'])} (HPublish {cN(op['ds'])} {self.c_bytes(b)} {cN(self.desnum(d))}))")
         elif k == "transmit":
             c = DatasetTransmitCommand(source=cl.hname(op["src"]), target=cl.hname(op["tgt"]), daddress=cl.daddr(op["tgt"]),
                                        ds=self.dsl[op["ds"]], idx=op["idx"])
@@ -224,6 +264,12 @@ class Runner:
         elif k in ("deliver", "drop", "dup"):
             af = cl.net[op["i"]]
             kind = self.frame_kind(af[1])
+            for tag in cl.net_tags[op["i"]][:1]:
+                if tag[0] == "job" and not cl.pool[tag[1]].jobs[tag[2]][3]:
+                    # the job that sent this message is still under way (paused after the send, at an shm request): in the model a job
+                    # and the message it sends are one step, taken when the job ends -- the oracle judges, the job model is not asked
+                    self.skip_corr = True
+                    self.stats.add("message-handled-before-its-sender-job-ended")
             t = self.c_netop({"deliver": "ADeliver", "drop": "ADrop", "dup": "ADup"}[k], af)
             if k == "deliver":
                 if kind[0] == "cmd":
@@ -239,7 +285,7 @@ class Runner:
                 self.stats.add("dup-" + kind[0])
                 self.terms.append(t)
         elif k == "tick":
-            cl.clock.ns += op["ms"] * 1_000_000
+            cl.advance_to(cl.clock.ns + op["ms"] * 1_000_000)
             self.terms.append(f"OA (ATick {cN(op['ms'] * 1_000_000)})")
         elif k == "iter":
             if op["h"] == 0:
@@ -259,11 +305,22 @@ class Runner:
             cl.run_job(op["h"], op["k"])
             self.job_done_terms(op["h"], op["k"], True)
         elif k == "stepjob":
-            fin = cl.step_job(op["h"], op["k"])
+            fin = cl.step_job(op["h"], op["k"], bool(op.get("fine")))
             self.stats.add("job-stepped")
+            if op.get("fine"):
+                self.stats.add("job-stepped-at-shm-requests")
             self.job_done_terms(op["h"], op["k"], fin)
         else:
             raise ValueError(k)
+        if k != "tick" and cl.clock.ns > t0:
+            # time passed inside the operation (a client waited for the shm server, or slept): the model's clock follows; a job reads
+            # the clock when it ends, so the tick goes before whatever the operation contributed
+            self.stats.add("time-passed-waiting-for-shm")
+            if k == "iter":
+                self.skip_corr = True    # ... but not into the middle of a loop iteration, which is one step of the model's trace
+                self.stats.add("time-passed-inside-loop-iteration")
+            else:
+                self.terms.insert(nterms, f"OA (ATick {cN(cl.clock.ns - t0)})")
         for af in cl.net[nbefore:]:
             kind = self.frame_kind(af[1])
             if kind[0] == "data":
@@ -293,7 +350,7 @@ class Runner:
                     continue
                 ds = self.key2ds[key]
                 if (b, d) != self.content[ds]:
-                    self.fail("stored-bytes-differ", f"host h{i} holds dataset {self.case['datasets'][ds]} as ({b.hex()}, {d!r}), the source's is "
+                    self.fail("stored-bytes-differ", f"host h{i} holds dataset {self.case['datasets'][ds]} as ({b.hex() if b is not None else 'an entry without a segment'}, {d!r}), the source's is "
                               f"({self.content[ds][0].hex()}, {self.content[ds][1]!r})")
             for ds in self.purged[i]:
                 if self.ds2key[ds] in snap[i]:
@@ -336,6 +393,26 @@ class Runner:
         if cl.ctl_crashed and not self.ctl_crash_seen:
             self.ctl_crash_seen = True
             self.fail("controller-listener-raised", f"the controller's Listener raised {cl.ctl_crashed} on what a data server sent to it")
+        for (host, what) in cl.shm_hangs[self.seen_hangs:]:
+            self.stats.add("shm-client-blocked")
+            self.skip_corr = True
+            self.fail("shm-client-blocked-forever", f"host h{host}: {what} (every request was answered once, to the socket it came from; "
+                      f"answers that went to a closed socket: {len(cl.shm_lost_answers)}, receives given up: {len(cl.shm_timeouts)})")
+        self.seen_hangs = len(cl.shm_hangs)
+        for (host, data, resp) in cl.shm_lost_answers[self.seen_lost_answers:]:
+            self.stats.add("shm-answer-went-to-closed-socket")
+        self.seen_lost_answers = len(cl.shm_lost_answers)
+        for (host, tmo) in cl.shm_timeouts[self.seen_timeouts:]:
+            self.stats.add("shm-receive-given-up")
+        self.seen_timeouts = len(cl.shm_timeouts)
+        for i in range(1, self.n + 1):
+            late = cl.shm_server[i].answered_late
+            for ms in late[self.seen_late.get(i, 0):]:
+                self.stats.add("shm-answer-late")
+                for bound in (2000, 4000, 60000):
+                    if ms > bound:
+                        self.stats.add(f"shm-answer-later-than-{bound // 1000}s")
+            self.seen_late[i] = len(late)
         for (host, key, pend, nopen) in cl.purge_violations:
             self.fail("purge-did-not-wait", f"host h{host}: shm purge of {self.case['datasets'][self.key2ds.get(key, 0)]} called while pool jobs {pend} on that dataset had not finished ({nopen} buffers open)")
         cl.purge_violations.clear()
@@ -373,7 +450,9 @@ class Runner:
                     self.stats.add("fetch-completed")
                 continue
             if snap[tgt].get(self.ds2key[ds]) != self.content[ds]:
-                self.fail("transfer-not-completed", f"transfer idx={idx} of {name} h{src}->h{tgt}: target does not hold the dataset after the drain")
+                self.fail("transfer-not-completed", f"transfer idx={idx} of {name} h{src}->h{tgt}: target does not hold the dataset after the drain "
+                          f"(its shm server: {cl.shm[tgt].describe(self.ds2key[ds])}; unfinished pool jobs there: {cl.pool[tgt].pending()}; "
+                          f"announced {self.announced.get((tgt, ds), 0)} times)")
                 continue
             want = 0 if (tgt, ds) in self.local_pub else 1
             if self.announced.get((tgt, ds), 0) != want:
@@ -439,10 +518,148 @@ class Runner:
                         if sid2 == ps[0][2]:
                             self.stats.add("pool-sends-interleaved-same-socket")
 
+    # --- the datagrams between the real shm client and the shm server of every host
+    def c_req(self, data):
+        api = self.cluster.shm_api
+        try:
+            q = api.deser(data)
+            if isinstance(q, api.AllocateRequest):
+                return f"RAlloc {cN(self.key2ds[q.key])} {cN(q.l)} {cN(self.desnum(q.deser_fun))}"
+            if isinstance(q, api.CloseCallback):
+                return f"RClose {cN(self.key2ds[q.key])} {cN(self.rdnum(q.rdid))}"
+            if isinstance(q, api.GetRequest):
+                return f"RGet {cN(self.key2ds[q.key])}"
+            if isinstance(q, api.PurgeRequest):
+                return f"RPurge {cN(self.key2ds[q.key])}"
+            if isinstance(q, api.DatasetStatusRequest):
+                return f"RStat {cN(self.key2ds[q.key])}"
+            if isinstance(q, api.StatusInquiry):
+                return "RPing"
+        except Exception as e:
+            raise OutsideModel(f"shm request outside the model: {e!r}")
+        raise OutsideModel(f"shm request outside the model: {type(q).__name__}")
+
+    @staticmethod
+    def rdnum(rdid):
+        if rdid == "":
+            return 0
+        if rdid[:1] == "r" and rdid[1:].isdigit():
+            return int(rdid[1:])
+        return 999_999   # a reader id the server never handed out
+
+    def c_resp(self, host, data):
+        api = self.cluster.shm_api
+        srv = self.cluster.shm_server[host]
+        by_shmid = {srv.shmid(key): k for key, k in self.key2ds.items()}
+        try:
+            p = api.deser(data)
+            if isinstance(p, api.AllocateResponse):
+                if p.error == "conflict":
+                    return "PConflict"
+                if p.error == "":
+                    return f"PShm {cN(by_shmid[p.shmid])}"
+            elif isinstance(p, api.GetResponse):
+                if p.error == "wait":
+                    return "PWait"
+                if p.error == "":
+                    return f"PGot {cN(by_shmid[p.shmid])} {cN(self.rdnum(p.rdid))} {cN(p.l)} {cN(self.desnum(p.deser_fun))}"
+            elif isinstance(p, api.OkResponse):
+                return "POk" if p.error == "" else "PFail"
+            elif isinstance(p, api.DatasetStatusResponse):
+                return f"PStat {cbool(p.status == api.DatasetStatus.ready)}"
+        except Exception as e:
+            raise OutsideModel(f"shm answer outside the model: {e!r}")
+        raise OutsideModel(f"shm answer outside the model: {type(p).__name__}")
+
+    def rpc_logs(self):
+        """per host: every datagram event between the clients of its shm server and that server, in order"""
+        cl = self.cluster
+        socks = {}
+        out = []
+        for i in range(1, self.n + 1):
+            evs = []
+            waiting = {}     # socket -> the job (thread) whose request is unanswered
+            log = cl.shm_server[i].log
+            pos = 0
+            while pos < len(log):
+                ev = log[pos]
+                sid = cN(socks.setdefault(ev[1], len(socks) + 1))
+                if ev[0] == "send":
+                    if any(t != ev[3] for t in waiting.values()):
+                        self.stats.add("shm-requests-of-two-threads-overlap")
+                    nxt = log[pos + 1:pos + 4]
+                    if ([e[0] for e in nxt] == ["handle", "recv", "close"] and all(e[1] == ev[1] for e in nxt)
+                            and nxt[0][2] == ev[2] and nxt[1][2] == nxt[0][3]):
+                        # the usual run: sent, taken by the server, answer received, socket closed -- one item (Net/ShmRpcCheck.expand)
+                        p = self.c_resp(i, nxt[0][3])
+                        self.stats.add({"PConflict": "shm-answered-conflict", "PWait": "shm-answered-wait", "PFail": "shm-answered-error"}.get(p, "shm-answered"))
+                        evs.append(f"MCall {sid} {cbool(nxt[0][4])} ({self.c_req(ev[2])}) ({p})")
+                        pos += 4
+                        continue
+                    evs.append(f"MOne (LSend {sid} ({self.c_req(ev[2])}))")
+                    waiting[ev[1]] = ev[3]
+                elif ev[0] == "handle":
+                    p = self.c_resp(i, ev[3])
+                    evs.append(f"MOne (LHandle {cbool(ev[4])} ({p}))")
+                    self.stats.add({"PConflict": "shm-answered-conflict", "PWait": "shm-answered-wait", "PFail": "shm-answered-error"}.get(p, "shm-answered"))
+                elif ev[0] == "recv":
+                    evs.append(f"MOne (LRecv {sid} ({self.c_resp(i, ev[2])}))")
+                    waiting.pop(ev[1], None)
+                elif ev[0] == "timeout":
+                    evs.append(f"MOne (LTimeout {sid})")
+                elif ev[0] == "close":
+                    evs.append(f"MOne (LClose {sid})")
+                    waiting.pop(ev[1], None)
+                pos += 1
+            out.append(clist(evs))
+        return clist(out)
+
+    def shm_overlap(self):
+        """did two threads of a host work on ONE dataset's shm entry at overlapping times (from a thread's first request for the key
+        to the last answer it got)?  Then the order of their effects is not the order in which the jobs end, which is what the
+        atomic-job model is given: the oracle judges such a trace, the datagram log is still checked, the job model is not asked"""
+        api = self.cluster.shm_api
+        for i in range(1, self.n + 1):
+            span = {}      # (thread, key) -> [first, last]
+            sock_key = {}
+            for pos, ev in enumerate(self.cluster.shm_server[i].log):
+                if ev[0] == "send":
+                    try:
+                        key = getattr(api.deser(ev[2]), "key", None)
+                    except Exception:
+                        key = None
+                    sock_key[ev[1]] = (ev[3], key)
+                    span.setdefault((ev[3], key), [pos, pos])[1] = pos
+                elif ev[0] == "recv" and ev[1] in sock_key:
+                    span[sock_key[ev[1]]][1] = pos
+            items = list(span.items())
+            for a in range(len(items)):
+                for b in range(a + 1, len(items)):
+                    (ta, ka), (lo1, hi1) = items[a]
+                    (tb, kb), (lo2, hi2) = items[b]
+                    if ta != tb and ka == kb and ka is not None and lo1 < hi2 and lo2 < hi1:
+                        return True
+        return False
+
     def term(self):
-        obs, nt = self.observation()
+        """(the trace for the atomic-job model | None, every frame send, every shm datagram event)"""
+        trace = None
+        if self.shm_overlap():
+            self.stats.add("shm-requests-of-two-threads-for-one-dataset-overlap")
+            self.skip_corr = True
+        if not (self.outside or self.skip_corr):
+            try:
+                obs, nt = self.observation()
+                trace = f"({clist(self.terms)},\n   {obs},\n   {nt})"
+            except OutsideModel as e:
+                self.outside = str(e)
         self.wire_stats()
-        return (f"((({clist(self.terms)},\n   {obs},\n   {nt}) : list op * list hobs * list (N * frame)),\n   {self.wire()})")
+        try:
+            rpc = self.rpc_logs()
+        except OutsideModel as e:
+            self.outside = str(e)
+            rpc = "[]"
+        return f"({copt(trace)},\n   {self.wire()},\n   {rpc})"
 
 
 # purges are detected through the fake shm: wrap on_purge bookkeeping into the runner
@@ -478,15 +695,11 @@ def drain(r, do, rounds=7):
 
 
 def safe_term(r):
-    try:
-        t = r.term()
-    except OutsideModel as e:
-        r.outside = str(e)
+    """the case as a Coq term; the part for the atomic-job model is left out (None) when the trace is one that model is not asked
+    about (r.skip_corr) or has no term for (r.outside, reported by run() unless an oracle fired)"""
+    t = r.term()
     if r.outside:
         r.stats.add("trace-outside-model")
-        return None
-    if r.skip_corr:
-        return None
     return t
 
 
@@ -528,7 +741,7 @@ def resolve(r, sop):
         nth = sop.get("nth", 0)
         if nth >= len(pend):
             return None
-        return {"op": k, "h": sop["h"], "k": pend[nth]}
+        return {"op": k, "h": sop["h"], "k": pend[nth], **({"fine": True} if sop.get("fine") else {})}
     return dict(sop)
 
 
@@ -658,9 +871,120 @@ def gen_concurrent(rng):
     return case, r, term
 
 
+SLOW_MS = [1, 40, 400, 1900, 2100, 2600, 3900, 4500, 9000, 31000, 61000]   # how much later an shm server answers (around 2 s, the 4 s grace, the 60 s of the client)
+
+
+def gen_shm_target(rng):
+    """several payloads reach ONE target at about the same time (transfers of different datasets, the same dataset from two
+    holders or commanded twice, a dataset the target already has), its two pool threads store them with their shm requests
+    interleaved as the trace says, while the target's shm server -- and now and then the source's -- answers late; sometimes the
+    target is also asked to pass a dataset on (a fetch, a transfer) or to purge one while that goes on"""
+    n = rng.choice([2, 3, 3])
+    nds = rng.choice([1, 2, 2, 3])
+    datasets, content = gen_setup(rng, n, nds)
+    case = {"nhosts": n, "datasets": datasets, "content": content, "ops": [], "drained": True, "mode": "shm-target"}
+    with Runner(case) as r:
+        _install_purge_tracking(r)
+        cl = r.cluster
+
+        def do(op):
+            case["ops"].append(op)
+            r.do(op)
+
+        def slow(h, p=0.5):
+            if rng.random() < p:
+                do({"op": "shmbusy", "h": h, "skip": rng.choice([0, 0, 0, 1, 1, 2]), "ms": rng.choice(SLOW_MS)})
+        tgt = rng.randrange(1, n + 1)
+        sources = [h for h in range(1, n + 1) if h != tgt]
+        holders = {}
+        for d in range(nds):
+            hs = rng.sample(sources, rng.choice([1, 1, 2]) if len(sources) > 1 else 1)
+            if rng.random() < 0.15:
+                hs = hs + [tgt]            # the target has it already
+            holders[d] = hs
+            for h in hs:
+                slow(h, 0.1)
+                do({"op": "publish", "h": h, "ds": d})
+        idx = rng.choice([0, 0, 1, 7])
+        for _ in range(rng.choice([1, 2, 2, 3, 4])):
+            d = rng.randrange(nds)
+            src = rng.choice([h for h in holders[d] if h != tgt] or sources)
+            do({"op": "transmit", "src": src, "tgt": tgt, "ds": d, "idx": idx})
+            idx += 1
+        extra = rng.random()
+        passon = None
+        if extra < 0.3:       # the target is to pass one of them on: commanded now, or while it is being stored
+            passon = {"op": "transmit", "src": tgt, "tgt": rng.choice([0] + sources), "ds": rng.randrange(nds), "idx": idx}
+            idx += 1
+            if extra < 0.1:
+                do(passon)
+                passon = None
+        # commands arrive, the sources send (their shm servers may be slow too)
+        while any(r.frame_kind(f)[0] == "cmd" for _, f in cl.net):
+            cands = [i for i, (_, f) in enumerate(cl.net) if r.frame_kind(f)[0] == "cmd"]
+            do({"op": "deliver", "i": rng.choice(cands)})
+        for h in range(1, n + 1):
+            do({"op": "iter", "h": h, "picks": []})
+        for h in sources:
+            for k in cl.pool[h].pending():
+                slow(h, 0.25)
+                do({"op": "runjob", "h": h, "k": k})
+        # the payloads arrive (one may be lost or doubled), the target's loop takes them
+        lose = rng.random() < 0.2
+        while any(r.frame_kind(f)[0] == "data" and a == cl.daddr(tgt) for a, f in cl.net):
+            cands = [i for i, (a, f) in enumerate(cl.net) if r.frame_kind(f)[0] == "data" and a == cl.daddr(tgt)]
+            i = rng.choice(cands)
+            y = rng.random()
+            if lose and y < 0.3:
+                do({"op": "drop", "i": i})
+                lose = False
+            elif y < 0.4 and len(cands) < 5:
+                do({"op": "dup", "i": i})
+            else:
+                do({"op": "deliver", "i": i})
+            if rng.random() < 0.3:
+                do({"op": "iter", "h": tgt, "picks": [rng.randrange(4) for _ in range(2)]})
+        do({"op": "iter", "h": tgt, "picks": [rng.randrange(4) for _ in range(rng.choice([0, 2]))]})
+        if extra > 0.8:
+            do({"op": "purge", "h": tgt, "ds": rng.randrange(nds)})
+        # the target's pool: which thread gets on, request by request; its shm server takes its time
+        guard = 0
+        fine = rng.random() < 0.8
+        while cl.pool[tgt].pending() and guard < 80:
+            guard += 1
+            front = cl.pool[tgt].pending()[:cl.pool[tgt].max_workers]
+            kk = rng.choice(front)
+            x = rng.random()
+            slow(tgt, 0.3)
+            if passon is not None and cl.pool[tgt].under_way() and rng.random() < 0.4:
+                do(passon)
+                passon = None
+                do({"op": "deliver", "i": len(cl.net) - 1})
+                do({"op": "iter", "h": tgt, "picks": [rng.randrange(4) for _ in range(2)]})
+            elif x < 0.7 and can_step(cl, tgt, kk):
+                do({"op": "stepjob", "h": tgt, "k": kk, **({"fine": True} if fine else {})})
+            elif x < 0.85:
+                do({"op": "runjob", "h": tgt, "k": kk})
+            elif x < 0.93 and cl.net:
+                do({"op": "deliver", "i": rng.randrange(len(cl.net))})
+            elif x < 0.97:
+                do({"op": "tick", "ms": rng.choice([100, 2500, 4100])})
+            else:
+                do({"op": "iter", "h": rng.randrange(0, n + 1), "picks": [rng.randrange(4) for _ in range(2)]})
+        if passon is not None:
+            do(passon)
+        drain(r, do)
+        r.check_crashes()
+        r.check_final()
+        term = safe_term(r)
+    return case, r, term
+
+
 def gen_case(rng, mode="random"):
     if mode == "concurrent":
         return gen_concurrent(rng)
+    if mode == "shm-target":
+        return gen_shm_target(rng)
     n = rng.choice([2, 2, 3])
     nds = rng.choice([1, 2, 2, 3])
     datasets, content = gen_setup(rng, n, nds)
@@ -713,11 +1037,23 @@ def gen_case(rng, mode="random"):
         loss = rng.choice([0.0, 0.1, 0.25, 0.5])
         dupp = rng.choice([0.0, 0.1, 0.3])
         steps = rng.randrange(10, 70)
+        slow = mode == "shm-slow"
+        if slow:    # the shm servers are slow now and then (nothing else is drawn differently in the other modes)
+            loss, dupp = rng.choice([0.0, 0.0, 0.1]), rng.choice([0.0, 0.1])
+            pslow, pfine = rng.choice([0.08, 0.15, 0.3]), rng.choice([0.0, 0.5, 0.9])
         for _ in range(steps):
             x = rng.random()
             busy = [h for h in range(0, n + 1) if cl.pull[h].queue]
             pend = [(h, k) for h in range(1, n + 1) for k in cl.pool[h].pending()]
-            if plan and x < 0.15:
+            if slow and rng.random() < pslow:
+                do({"op": "shmbusy", "h": rng.randrange(1, n + 1), "skip": rng.choice([0, 0, 0, 1, 1, 2, 3]), "ms": rng.choice(SLOW_MS)})
+            if slow and pend and x >= 0.70 and x < 0.88:
+                h, k = rng.choice(pend)
+                if rng.random() < 0.6 and can_step(cl, h, k):
+                    do({"op": "stepjob", "h": h, "k": k, **({"fine": True} if rng.random() < pfine else {})})
+                else:
+                    do({"op": "runjob", "h": h, "k": k})
+            elif plan and x < 0.15:
                 do(plan.pop(0))
             elif cl.net and x < 0.45:
                 i = rng.randrange(len(cl.net))
@@ -796,6 +1132,34 @@ def corpus():
     out.append([pub, pub1, tx, D("cmd", 1), it1, rj(1), X("data", 2), tick, T(1, 2, 1, 1), D("cmd", 1), it1, sj(1, 0), sj(1, 1), sj(1, 0), sj(1, 1), sj(1, 0)])
     # sends to two different destinations interleaved (nothing is shared between them)
     out.append([pub, pub1, T(1, 2, 0, 0), T(1, 0, 1, 1), D("cmd", 1), D("cmd", 1), it1, sj(1, 0), sj(1, 1), sj(1, 0), sj(1, 1), sj(1, 0), sj(1, 1)])
+    # --- a slow shm server (a busy spell, a deep queue, a lock held by a page-out): its answer to one request comes late
+    B = lambda h, ms, skip=0: {"op": "shmbusy", "h": h, "ms": ms, "skip": skip}
+    fj = lambda h, nth=0: {"op": "stepjob", "h": h, "nth": nth, "fine": True}
+    for ms in (300, 2100, 2600, 5000, 70000):
+        # ... of the target, to the allocate / to the close of the store
+        out.append([pub, tx, D("cmd", 1), it1, rj(1), D("ack", 0), D("data", 2), it2, B(2, ms), rj(2), it1, D("ack", 1), it1, it0])
+        out.append([pub, tx, D("cmd", 1), it1, rj(1), D("ack", 0), D("data", 2), it2, B(2, ms, 1), rj(2), it1, D("ack", 1), it1, it0])
+    for ms in (2600, 70000):
+        # ... of the source, to the get / to the reader's close of the send; to the get of a fetch; to a worker's allocate; to the purge
+        out.append([pub, tx, D("cmd", 1), it1, B(1, ms), rj(1), D("ack", 0), D("data", 2), it2, rj(2), D("ack", 1), it1, tick, it1])
+        out.append([pub, tx, D("cmd", 1), it1, B(1, ms, 1), rj(1), D("ack", 0), D("data", 2), it2, rj(2), D("ack", 1), it1, tick, it1])
+        out.append([pub, T(1, 0, 0, 0), D("cmd", 1), it1, B(1, ms), rj(1), D("data", 0), it0, D("ack", 1), it1, tick, it1])
+        out.append([B(1, ms), pub, tx, D("cmd", 1), it1, rj(1), D("data", 2), it2, rj(2), D("ack", 1), it1])
+        out.append([pub, tx, D("cmd", 1), it1, rj(1), D("data", 2), it2, rj(2), D("ack", 1), it1, B(2, ms), purge2, D("purge", 2), it2, T(1, 2, 0, 1), D("cmd", 1), it1])
+        # ... while the source sends the payload again after the grace period: the second copy is confirmed and dropped
+        out.append([pub, tx, D("cmd", 1), it1, rj(1), D("data", 2), it2, B(2, ms), fj(2), tick, it1, rj(1), D("data", 2), fj(2), fj(2), fj(2), it2, D("ack", 1), D("ack", 1), it1])
+    # the same transfer commanded twice: the two stores of the target ask its shm server at the same time (allocate / allocate, the
+    # second one is told `conflict` while the first is still writing), in both orders, with a slow answer in between
+    twice = [pub, tx, T(1, 2, 0, 1), D("cmd", 1), D("cmd", 1), it1, rj(1), rj(1), D("data", 2), D("data", 2), it2]
+    for pattern in ([0, 1, 0, 1, 0, 1], [0, 1, 1, 1, 0, 0], [1, 0, 0, 0, 1], [0, 0, 1, 1, 0, 1]):
+        out.append(twice + [fj(2, nth) for nth in pattern])
+        out.append(twice + [B(2, 2600, 1)] + [fj(2, nth) for nth in pattern])
+    # two different datasets stored at the same time, request by request
+    out.append([pub, pub1, tx, T(1, 2, 1, 1), D("cmd", 1), D("cmd", 1), it1, rj(1), rj(1), D("data", 2), D("data", 2), it2, B(2, 2600),
+                fj(2, 0), fj(2, 1), fj(2, 0), fj(2, 1), fj(2, 0), fj(2, 1)])
+    # the target is asked for the dataset (a fetch) while it is still writing it: its shm server says `wait` until the store has closed
+    out.append([pub, tx, D("cmd", 1), it1, rj(1), D("data", 2), it2, fj(2, 0), T(2, 0, 0, 1), D("cmd", 2), it2, fj(2, 1), fj(2, 1), fj(2, 0), fj(2, 1), fj(2, 0), fj(2, 1)])
+    out.append([pub, tx, D("cmd", 1), it1, rj(1), D("data", 2), it2, fj(2, 0), T(2, 0, 0, 1), D("cmd", 2), it2, rj(2, 1)])
     return [(base, script) for script in out]
 
 
@@ -808,10 +1172,10 @@ def nontrivial(r):
     s = r.stats
     return bool({"transfer-completed", "fetch-completed", "purge-applied"} & s) and bool(
         {"lost-data", "lost-ack", "dup-data", "dup-ack", "payload-resent-after-grace", "purge-waited-for-running-jobs", "loop-blocked-in-wait",
-         "pool-sends-interleaved"} & s)
+         "pool-sends-interleaved", "shm-answer-late", "shm-requests-of-two-threads-overlap", "shm-answered-wait"} & s)
 
 
-STREAMS = [("random", 450, 12000), ("purge-race", 150, 5000), ("concurrent", 150, 4000)]
+STREAMS = [("random", 450, 12000), ("purge-race", 150, 5000), ("concurrent", 150, 4000), ("shm-slow", 90, 4000), ("shm-target", 90, 4000)]
 
 
 def guarded(make, res, stream):
@@ -829,10 +1193,12 @@ def guarded(make, res, stream):
 
 def run(ctx, res):
     res.rule = ("a trace (2-3 data servers + controller, 1-4 datasets, 1-7 transfer/fetch/purge commands incl. redundant ones, transfer idx counted from 0, "
-                "random delivery / loss / duplication of command, payload and ack frames, loop iterations, pool-job completions and frame-by-frame steps of "
-                "up to two pool jobs at a time, clock ticks across the 4 s grace period, then a loss-free drain) counts as non-trivial when a transfer or "
+                "random delivery / loss / duplication of command, payload and ack frames, loop iterations, pool-job completions and frame-by-frame or "
+                "shm-request-by-request steps of up to two pool jobs at a time, shm servers answering 1 ms - 61 s late, clock ticks across the 4 s grace "
+                "period, then a loss-free drain) counts as non-trivial when a transfer or "
                 "fetch completed or a purge was applied AND a payload/ack frame was lost or duplicated, or a payload was re-sent after the grace period, "
-                "or the loop blocked in wait() while jobs ran, or the frame sends of two pool jobs interleaved; distinct = distinct resolved op lists")
+                "or the loop blocked in wait() while jobs ran, or the frame sends of two pool jobs interleaved, or an shm server answered late or `wait`, "
+                "or the shm requests of two threads overlapped; distinct = distinct resolved op lists")
     terms, metas = [], []
 
     def one(got, stream):
@@ -852,10 +1218,10 @@ def run(ctx, res):
             res.fail(sig, what, case)
         if len(res.samples) < 3 and stream == "random" and nontrivial(r):
             res.samples.append({"nhosts": case["nhosts"], "datasets": case["datasets"], "ops": case["ops"][:25], "stats": sorted(r.stats)})
-        if term is None:
-            if not r.fails and not r.skip_corr:
-                res.disagree("the trace contains a message the Coq model has no term for (" + str(r.outside) + ") although no oracle fired", case)
-            return
+        if r.outside and not r.fails and not r.skip_corr:
+            res.disagree("the trace contains a message the Coq model has no term for (" + str(r.outside) + ") although no oracle fired", case)
+        if r.skip_corr:
+            res.count("atomic-job-model-not-asked")
         terms.append(term)
         metas.append(case)
 
@@ -867,11 +1233,13 @@ def run(ctx, res):
             one(guarded(lambda: gen_case(rng, mode=stream), res, stream), stream)
     if res.evaluations >= 50 and not res.failures and not (res.histogram.get("has:transfer-completed") and res.histogram.get("has:fetch-completed")):
         res.disagree("no transfer / no fetch completed in any of the traces: the harness does not drive the implementation any more", {})
-    results, logs = coq_results("C07", HEADER, terms, "check_case_w", tag="trace", shard=60, timeout=900)
+    results, logs = coq_results("C07", HEADER, terms, "check_case_r", tag="trace", shard=60, timeout=900,
+                                case_type="option (list op * list hobs * list (N * frame)) * list fsend * list (list mev)")
     res.corr_checked += len(results)
     for ok, case in zip(results, metas):
         if ok is not True:
-            res.disagree("Coq model (Net.DataServer.run_ops, Net.Multipart.wrun) and the real DataServer/Listener differ on the observable end state of a trace" +
+            res.disagree("Coq model (Net.DataServer.run_ops, Net.Multipart.wrun, Net.ShmRpc.srun) and the real DataServer / Listener / shm client differ on the observable "
+                         "end state of a trace, on the frames put on the wire, or on the datagrams exchanged with the shm server (one request, one awaited answer)" +
                          ("" if ok is False else " (cases file did not compile: " + (logs[0][-400:] if logs else "") + ")"), case)
             break
 
@@ -896,7 +1264,7 @@ def search(ctx, res):
             continue
         if r.fails:
             return found(case, r)
-    modes = ["random", "concurrent", "purge-race", "concurrent", "random", "purge-race"]
+    modes = ["shm-target", "random", "concurrent", "shm-slow", "purge-race", "concurrent", "random", "purge-race"]
     for k, mode in enumerate(modes):
         rng = ctx.sub_rng(f"search{k}")
         for _ in range(1000):
